@@ -25,7 +25,8 @@ RULE = ("E1: ('core', len, zrun, enc) = every payload length 1..N x zero run x p
         "length/tag layout/encryption/declared length, 10 start offsets incl. 0, 65535, 65536, and 4 keys; ('bec2', order, body, key) "
         "= every ordered non-empty subset of {customer-key, ECC, update} blocks x 3 bodies x 2 keys. ('hist', ops) = every operation sequence of length <= 4 (5) on ONE live Bf3File (serialise with 2 keys / offsets, replace the plain or the encrypted blob, append / remove a component, add a tag) with >= 2 serialisations. Oracle: byte identity with the "
         "independent serialiser, acceptance and equal content by the independent validator, header structure, text envelope. "
-        "Distinct = distinct vectors; non-trivial = at least one component (directory arithmetic exercised).")
+        "Distinct = distinct vectors; non-trivial = at least one component (directory arithmetic exercised)."
+        " Added: ('repeat', pattern, same-object|equal-copies, enc, framing) component lists holding the same object several times; tag alphabet with the encryption tag on plain components (what is stored follows the flag).")
 ASSUMPTIONS = [
     "tags are emitted in the description's own (insertion) order - the statement fixes no order",
     "trailing empty text lines are ignored (the statement does not forbid the one the writer usually emits)",
